@@ -5,7 +5,7 @@ from .. import world as W
 from . import _ws
 
 ID = 'C13'
-TIERS = {'quick': {'seeds': 5000, 'seconds': 40, 'determinism': 48},
+TIERS = {'quick': {'seeds': 15000, 'seconds': 75, 'determinism': 48},
          'thorough': {'seconds': 900, 'determinism': 512, 'minimise_s': 120}}
 RULE = ('seeded sequential runs; every test phase may write unique tokens to sys.stdout / '
         'sys.stderr / their .buffer / print, with and without newline; every outcome kind incl. '
